@@ -61,6 +61,8 @@ type spec struct {
 	Typ   string `json:"typ"`
 	Toks  []tok  `json:"toks"`
 	Lits  []dec  `json:"lits"`
+	Toks2 []tok  `json:"toks2"` // the expression of the second name of a two-name spec (empty: one name)
+	Lits2 []dec  `json:"lits2"`
 }
 
 type kase struct {
@@ -72,6 +74,7 @@ type kase struct {
 	Place string   `json:"place"`
 	Specs []spec   `json:"specs"`
 	Vals  []outRes `json:"vals"`
+	Vals2 []outRes `json:"vals2"` // values of the second names of a block of two-name specs
 	Trail []outRes `json:"trail"`
 	Res   outRes   `json:"res"`
 	// Obs is set by the harness: "" observes the constant through a variable of its
@@ -214,6 +217,8 @@ func renderExpr(toks []tok, lits []dec) (string, error) {
 			}
 		case "iota":
 			st = append(st, "iota")
+		case "fwd":
+			st = append(st, "FwdZ")
 		case "un":
 			if len(st) < 1 {
 				return "", fmt.Errorf("stack underflow")
@@ -436,6 +441,8 @@ func (k *kase) renderBlock() (prog, error) {
 	}
 	decl.WriteString("const (\n")
 	names := make([]string, len(k.Specs))
+	names2 := make([]string, len(k.Specs))
+	pair := len(k.Vals2) > 0 || (len(k.Specs) > 0 && len(k.Specs[0].Toks2) > 0)
 	for j, s := range k.Specs {
 		name := fmt.Sprintf("A%d", j)
 		if s.Blank {
@@ -443,6 +450,13 @@ func (k *kase) renderBlock() (prog, error) {
 		}
 		names[j] = name
 		decl.WriteString(ind + name)
+		if pair {
+			names2[j] = fmt.Sprintf("C%d", j)
+			if s.Blank {
+				names2[j] = "_"
+			}
+			decl.WriteString(", " + names2[j])
+		}
 		if !s.Impl {
 			e, err := renderExpr(s.Toks, s.Lits)
 			if err != nil {
@@ -452,6 +466,13 @@ func (k *kase) renderBlock() (prog, error) {
 				decl.WriteString(" " + s.Typ)
 			}
 			decl.WriteString(" = " + e)
+			if pair {
+				e2, err := renderExpr(s.Toks2, s.Lits2)
+				if err != nil {
+					return prog{}, err
+				}
+				decl.WriteString(", " + e2)
+			}
 		}
 		decl.WriteString("\n")
 	}
@@ -467,11 +488,30 @@ func (k *kase) renderBlock() (prog, error) {
 			l2, w2, _ := obsLines(names[j], k.Vals[j].C, !k.Vals[j].C.Inexact, false, j)
 			nbody, nwant = append(nbody, l2...), append(nwant, w2...)
 			inexact = inexact || k.Vals[j].C.Inexact
+			if pair && j < len(k.Vals2) {
+				l, w, pt := obsLines(names2[j], k.Vals2[j].C, true, false, 50+j)
+				body, want, ptypes = append(body, l...), append(want, w...), append(ptypes, pt...)
+				l2, w2, _ := obsLines(names2[j], k.Vals2[j].C, !k.Vals2[j].C.Inexact, false, 50+j)
+				nbody, nwant = append(nbody, l2...), append(nwant, w2...)
+				inexact = inexact || k.Vals2[j].C.Inexact
+			}
 		}
 	} else {
 		for j, s := range k.Specs {
 			if !s.Blank {
 				body = append(body, fmt.Sprintf("fmt.Println(%s)", names[j]))
+				if pair {
+					body = append(body, fmt.Sprintf("fmt.Println(%s)", names2[j]))
+				}
+			}
+		}
+	}
+	// FwdZ is declared at package level after everything that refers to it
+	fwd := ""
+	for _, s := range k.Specs {
+		for _, t := range append(append([]tok(nil), s.Toks...), s.Toks2...) {
+			if t.K == "fwd" {
+				fwd = "\nconst FwdZ = 10\n"
 			}
 		}
 	}
@@ -492,13 +532,13 @@ func (k *kase) renderBlock() (prog, error) {
 			if trailer != "" {
 				pre = append(pre, trailer)
 			}
-			return mainOf("", append(pre, body...))
+			return mainOf("", append(pre, body...)) + fwd
 		}
 		t := ""
 		if trailer != "" {
 			t = trailer + "\n\n"
 		}
-		return mainOf(decl.String()+")\n\n"+t, body)
+		return mainOf(decl.String()+")\n\n"+t, body) + fwd
 	}
 	p := prog{Src: mk(body), PTypes: ptypes}
 	if k.accepted() {
